@@ -130,4 +130,82 @@ theorem multi_removeHead : Multi.removeHead = Map.removeHead := by
   | (funext h p; simp only [Multi.removeHead, Map.removeHead]; done)
   | (funext h p; simp only [Multi.removeHead, Map.removeHead]; grind)
 
+/-- the `while(parent)` loop behind `rebalParentUpwards:` does what the `do … while(parent)` loop of the private insert
+    does when it is entered with a non-null parent (one more unit of fuel for the final test) -/
+theorem removeUp_of_insertLoop : ∀ (f : Nat) (h : Heap) (p old old' : Nat) (x : Heap), p ≠ 0 →
+    Map.insertRebalance_loop f h p old = some x → Map.removeUpwards_loop (f + 1) h p old' = some x := by
+  intro f
+  induction f with
+  | zero => intro h p old old' x _ e; rw [Map.insertRebalance_loop] at e; simp at e
+  | succ f ih =>
+    intro h p old old' x hp e
+    rw [Map.insertRebalance_loop] at e
+    rw [Map.removeUpwards_loop]
+    simp only [hp, ne_eq, not_false_eq_true, if_true] at e ⊢
+    split at e
+    · rename_i hc; rw [if_pos hc]; exact e
+    · rename_i hc
+      rw [if_neg hc]
+      split at e
+      · rename_i hp'
+        exact ih _ _ _ _ _ hp' e
+      · rename_i hp'
+        have : (Map.rebal (Map.updateHeightAndSlope h p) p).1.parent (Map.rebal (Map.updateHeightAndSlope h p) p).2 = 0 := by
+          simpa using hp'
+        rw [Map.removeUpwards_loop]
+        simp only [this, ne_eq, not_true_eq_false, if_false]
+        exact e
+
+theorem removeUpwards_loop_eq (ctx : Ctx) (h : Heap) (sub : Tree) (fuel old : Nat)
+    (hc : ReprCtx h ctx) (hs : Repr h (h.get ctx.cell) ctx.par sub) (hnd : (ids sub ++ ctx.ids).Nodup)
+    (hok : ClimbOk ctx (sub, true)) (hf : ctx.depth < fuel) :
+    ∃ h', Map.removeUpwards_loop fuel h ctx.par old = some h' ∧ Repr h' h'.root 0 (ctx.climb (sub, true)).1 ∧
+      h'.key = h.key ∧ h'.value = h.value := by
+  cases fuel with
+  | zero => omega
+  | succ f =>
+    by_cases ht : ctx = .top
+    · subst ht
+      refine ⟨h, ?_, hs, rfl, rfl⟩
+      rw [Map.removeUpwards_loop]; simp [Ctx.par]
+    · obtain ⟨h', e1, e2, e3, e4⟩ := insertRebalance_loop_eq ctx h sub f old ht hc hs hnd hok (by omega)
+      exact ⟨h', removeUp_of_insertLoop f h ctx.par old old h' (fun e => ht ((par_eq_zero ctx).mp e)) e1, e2, e3, e4⟩
+
+/-- in-order position, in the whole tree, of position `j` of the subtree in the hole -/
+def Ctx.pos : Ctx → Nat → Nat
+  | .top, j => j
+  | .left _ _ _ _ _ _ up, j => up.pos j
+  | .right _ _ _ _ _ l up, j => up.pos (l.size + 1 + j)
+
+theorem delIdx_plug : ∀ (ctx : Ctx) (sub : Tree) (j : Nat), j < sub.size →
+    Tree.delIdx (ctx.pos j) (ctx.plug sub) = ctx.climb (Tree.delIdx j sub) := by
+  intro ctx
+  induction ctx with
+  | top => intro sub j _; rfl
+  | left i k v hh s r up ih =>
+    intro sub j hj
+    simp only [Ctx.pos, Ctx.plug, Ctx.climb]
+    rw [ih _ j (by simp only [Tree.size]; omega)]
+    congr 1
+    simp only [Tree.delIdx, hj, if_true]
+  | right i k v hh s l up ih =>
+    intro sub j hj
+    simp only [Ctx.pos, Ctx.plug, Ctx.climb]
+    rw [ih _ _ (by simp only [Tree.size]; omega)]
+    congr 1
+    have h1 : ¬ (l.size + 1 + j < l.size) := by omega
+    have h2 : ¬ (l.size + 1 + j = l.size) := by omega
+    have h3 : l.size + 1 + j - l.size - 1 = j := by omega
+    simp only [Tree.delIdx, h1, h2, h3, if_false]
+
+theorem multi_removeUp : ∀ (fuel : Nat) (h : Heap) (p old : Nat),
+    Multi.removeUpwards_loop fuel h p old = Map.removeUpwards_loop fuel h p old := by
+  intro fuel
+  induction fuel with
+  | zero => intro h p old; rw [Multi.removeUpwards_loop, Map.removeUpwards_loop]
+  | succ f ih =>
+    intro h p old
+    rw [Multi.removeUpwards_loop, Map.removeUpwards_loop]
+    simp only [multi_upd, multi_rebal, ih]
+
 end Nstd.Avl
